@@ -895,6 +895,7 @@ struct GenCfg {
     shared_p: f64,
     typ_w: [u32; 6],
     burst_p: f64,
+    order_budget: u64,
     burst_sizes: &'static [usize],
     drain: bool,
     frac_shares_p: f64,
@@ -986,6 +987,7 @@ impl Gen {
             typ_w,
             burst_p: if big { *c.pick(&[0.05, 0.1, 0.2]) } else { *c.pick(&[0.0, 0.01, 0.03]) },
             burst_sizes,
+            order_budget: if thorough { 7000 } else { 1500 },
             drain: c.chance(0.7),
             frac_shares_p: *c.pick(&[0.0, 0.1]),
             dup_p: *c.pick(&[0.0, 0.2, 0.6]),
@@ -1080,7 +1082,8 @@ impl Gen {
         if bogus {
             bt = *self.rng.pick(&[999u64, 77, u64::MAX, sim.known_ids.iter().max().copied().unwrap_or(0) + 1]);
         }
-        if self.rng.chance(self.cfg.burst_p) && !bogus {
+        // an order budget per run keeps the books (and the SUT's own quadratic removals) tractable
+        if self.rng.chance(self.cfg.burst_p) && !bogus && sim.next_tag < self.cfg.order_budget {
             self.burst(sim, client, h);
             return self.queue.pop_front();
         }
@@ -1123,7 +1126,7 @@ impl Gen {
 
     fn next_bare(&mut self, sim: &mut Sim) -> Op {
         let w = [self.cfg.w_insert, self.cfg.w_tick, self.cfg.w_delete];
-        if self.rng.chance(self.cfg.burst_p) {
+        if self.rng.chance(self.cfg.burst_p) && sim.next_tag < self.cfg.order_budget {
             self.burst(sim, 0, 0);
             return self.queue.pop_front().unwrap();
         }
